@@ -144,17 +144,22 @@ def evaluate(lines):
     return [Case(l, m) for l, m in zip(lines, ml)]
 
 
-def execute(reqs):
-    """run request lines through the real code (harness replay) and the model"""
+def run_requests(reqs):
+    """request lines -> `req => impl answer` lines (real code via the harness, or an external runner)"""
     ext = [r for r in reqs if r.split(' ', 1)[0] in props.EXTERNAL]
     lines = []
-    if ext:
-        for r in ext: lines += props.EXTERNAL[r.split(' ', 1)[0]]([r])
+    for k in dict.fromkeys(r.split(' ', 1)[0] for r in ext):
+        lines += props.EXTERNAL[k]([r for r in ext if r.split(' ', 1)[0] == k])
     rest = [r for r in reqs if r not in ext]
     if rest:
         rc, out = run_harness(['replay'], stdin_text='\n'.join(rest) + '\n')
         lines += out.splitlines()
-    return evaluate(lines)
+    return lines
+
+
+def execute(reqs):
+    """run request lines through the real code and the model"""
+    return evaluate(run_requests(reqs))
 
 
 # ----------------------------------------------------------------------------- search / shrink
@@ -236,7 +241,7 @@ def check(pid, tier, seed):
     lines = []
     corpus = f'{ROOT}/corpus/{pid}.txt'
     if os.path.exists(corpus):
-        rc, out = run_harness(['replay'], stdin_text=open(corpus).read()); lines += out.splitlines()
+        lines += run_requests([l.split(' => ')[0].strip() for l in open(corpus) if l.strip() and not l.startswith('#')])
     gens = cfg['gens'](seed, thorough)
     for g in gens:
         if callable(g):
